@@ -74,7 +74,8 @@ def make_script(sc: dict, i: int):
                     if not sc.get("sparse_persistent") or rr % 4 != 0:
                         out[(str(e), ATTRS[a])] = token(ident, n, e, a)
                 elif k < settle and (rr % 3 != 0 or "loop_len" in sc):
-                    out[(str(e), ATTRS[a])] = token(ident, n, e, a)
+                    # an event may carry no payload: the value None is still an output
+                    out[(str(e), ATTRS[a])] = None if (rr >> 8) % 6 == 0 else token(ident, n, e, a)
         beh["out"] = out
         if typ != "time-based" and sc.get("future_outputs") and (r >> 20) % 4 == 0:
             beh["out_time"] = t + 1 + (r >> 23) % 2
@@ -344,7 +345,8 @@ def run_impl(sc: dict, sched_seed: int):
             return rng.choice(real) if real else len(opts) - 1
         return rng.randrange(len(opts))
     outcome, c = run_world(build_from(sc), sc["until"], chooser, lazy=sc["lazy"], cache=sc["cache"],
-                           max_loop_iterations=sc["max_loop"], rt_factor=sc.get("rt"), rt_strict=bool(sc.get("rt_strict")))
+                           max_loop_iterations=sc["max_loop"], rt_factor=sc.get("rt_raw", sc.get("rt")), rt_strict=bool(sc.get("rt_strict")),
+                           time_resolution=sc.get("tres", 1.0))
     if c.deadlock:
         outcome = "deadlock"
     c.outcome = outcome
@@ -527,7 +529,10 @@ def gen_scenario(rng: random.Random, groups: bool = True, async_req: bool = Fals
           "lazy": rng.random() < 0.5, "cache": rng.random() < 0.5, "beh_seed": rng.randrange(10 ** 9),
           "sparse_persistent": rng.random() < 0.2, "future_outputs": rng.random() < 0.3}
     if rt:
-        sc["rt"] = rng.choice([1, 1, 2, 3])
+        # (rt_factor, time_resolution) as given to mosaik; "rt" = their product = clock ticks per step (the model's parameter)
+        raw, tres = rng.choice([(1, 1.0), (2, 1.0), (3, 1.0), (2, 0.5), (4, 0.5), (1, 2.0), (0.5, 2.0), (1.5, 2.0)])
+        sc["rt_raw"], sc["tres"] = raw, tres
+        sc["rt"] = int(raw * tres)
         sc["rt_strict"] = rng.random() < 0.2
         sc["instant"] = rng.random() < 0.4
         sc["future_outputs"] = False
@@ -565,6 +570,35 @@ def gen_loop_scenario(rng: random.Random) -> dict:
     sc = {"sims": sims, "connects": connects, "until": rng.randint(2, 4), "max_loop": ml,
           "lazy": rng.random() < 0.5, "cache": rng.random() < 0.5, "beh_seed": rng.randrange(10 ** 9),
           "sparse_persistent": False, "future_outputs": False, "loop_len": max(0, ml + rng.choice([-1, 0, 0, 1, 2]))}
+    return normalise(sc)
+
+
+def gen_diamond_scenario(rng: random.Random) -> dict:
+    """Several trigger paths of different total delay between the same two simulators (a direct shifted connection
+    and a chain of relays, in either creation order), the source self-scheduling sparsely: the minimal trigger-path
+    delay in the ancestor table is what max_advance and the progress bound rest on."""
+    n_relays = rng.choice([1, 1, 2])
+    n = 2 + n_relays
+    src, dst = 0, n - 1
+    sims = [{"type": rng.choice(["hybrid", "event-based", "time-based"]), "group": [], "init_ev": None}]
+    if sims[0]["type"] == "event-based":
+        sims[0]["init_ev"] = 0
+    for _ in range(n_relays):
+        sims.append({"type": "event-based", "group": [], "init_ev": None})
+    sims.append({"type": rng.choice(["hybrid", "event-based"]), "group": [], "init_ev": rng.choice([None, 0])})
+    if sims[-1]["type"] == "hybrid":
+        sims[-1]["init_ev"] = None
+    def conn(a, b, ts):
+        return {"src": a, "seid": rng.randrange(2), "dst": b, "deid": rng.randrange(2), "sattr": 3 if sims[a]["type"] != "time-based" else 2,
+                "dattr": 1, "ts": ts, "weak": False, "init": False, "async": False}
+    direct = [conn(src, dst, rng.choice([1, 2, 2]))]
+    chain = [conn(i, i + 1, rng.choice([0, 0, 0, 1]) if i else 0) for i in range(n - 1)]
+    connects = direct + chain if rng.random() < 0.5 else chain + direct
+    if rng.random() < 0.3:
+        connects.append(conn(dst, src, rng.choice([1, 2])))        # a shifted loop back
+    sc = {"sims": sims, "connects": connects, "until": rng.randint(4, 7), "max_loop": 100,
+          "lazy": rng.random() < 0.3, "cache": rng.random() < 0.5, "beh_seed": rng.randrange(10 ** 9),
+          "sparse_persistent": False, "future_outputs": False}
     return normalise(sc)
 
 
